@@ -70,18 +70,28 @@ def op_load_subs(ctx, key, fname, max_param, use_sympy=True, bcast_res=True):
     if res is None:
         ctx.report.setdefault('load_subs', {})[key] = None
         return
-    out = []
+    import sympy
+    names = ['a%i' % i for i in range(max(max_param, 1))]
+    vec = sympy.Array(sympy.symbols(' '.join(names) + ' dummy_', real=True)[:len(names)])
+    out, applied = [], []
     for row in res:
-        r = []
+        r, ap = [], []
         for ent in row:
             if isinstance(ent, float) and np.isnan(ent):
                 r.append('nan')
+                ap.append(None)
             elif isinstance(ent, dict):
                 r.append({str(k): str(v) for k, v in ent.items()})
+                # what the map does to the parameter vector, the way convert_params applies it
+                ap.append([str(x) for x in vec.subs(ent, simultaneous=True)])
             else:
                 r.append(str(ent))
+                ap.append(None)
         out.append(r)
+        applied.append(ap)
     ctx.report.setdefault('load_subs', {})[key] = out
+    if use_sympy:
+        ctx.report.setdefault('load_subs_applied', {})[key] = applied
 
 
 def op_slices(ctx, cases):
